@@ -155,6 +155,8 @@ def check(mod, tier: str, seed: int, *, replay: str | None = None) -> int:
         by_tid: dict[int, list] = {}
         for tid, l, clause in verdict["fails"]:
             by_tid.setdefault(int(tid), []).append((int(l), clause))
+        # clauses named Domain* are markers for the known-findings matcher, never violations by themselves
+        by_tid = {tid: fl for tid, fl in by_tid.items() if not all(c.startswith("Domain") for _, c in fl)}
         rec_by_tid = {r["tid"]: r for r in records}
         case_by_tid = {c["tid"]: c for c in cases}
         known = load_known(pid)
